@@ -51,6 +51,13 @@ fn child_main(sc: &'static dyn Scenario, params: &Value, tmpdir: &str) -> ! {
         libc::alarm(300);
         let lim = libc::rlimit { rlim_cur: 16000, rlim_max: 20000 };
         libc::setrlimit(libc::RLIMIT_NOFILE, &lim);
+        // a run must not be able to exhaust the machine (e.g. a corrupt length prefix turned into a
+        // multi-terabyte allocation): the sanitizer build reserves terabytes of address space, so it
+        // is bounded through ASAN_OPTIONS (hard_rss_limit_mb) instead
+        if scen::VARIANT != "asan" {
+            let mem = libc::rlimit { rlim_cur: 6 << 30, rlim_max: 6 << 30 };
+            libc::setrlimit(libc::RLIMIT_AS, &mem);
+        }
         // keep the library's own diagnostics out of the check's output
         let errpath = std::ffi::CString::new(stderr_path()).unwrap();
         let devnull = if scen::VARIANT == "asan" { libc::open(errpath.as_ptr(), libc::O_WRONLY | libc::O_CREAT | libc::O_TRUNC, 0o600) } else { libc::open(b"/dev/null\0".as_ptr() as *const _, libc::O_WRONLY) };
